@@ -19,6 +19,8 @@ import traceback
 
 ROOT = os.path.dirname(os.path.dirname(os.path.abspath(__file__)))
 REPO = os.environ.get('VERIF_REPO', '/repo')
+# where evidence/ and replays/ are written (seed trials redirect this)
+OUT = os.environ.get('VERIF_OUT', ROOT)
 
 
 class Hang(BaseException):
@@ -31,9 +33,12 @@ class Instance:
     def __init__(self, name, fn, params=None, W=64, budget_s=600,
                  expect='hold', max_decisions=20000, witness_every=1,
                  note='', max_paths=200000, conc_timeout_s=10,
-                 solver_timeout_ms=120000, max_violations=25):
+                 solver_timeout_ms=120000, max_violations=25,
+                 explode_limit=3000, n_samples=96):
         self.name = name
         self.max_violations = max_violations
+        self.explode_limit = explode_limit
+        self.n_samples = n_samples
         self.fn = fn                # function name in the harness module
         self.params = params or {}
         self.W = W
@@ -91,6 +96,11 @@ def run_concrete(mod, fn_name, params, assignment, W, timeout_s=10):
     except Hang:
         out['outcome'] = 'hang'
         out['detail'] = 'no result within %ss' % timeout_s
+    except core.Unwind as ex:
+        # the same bound that stopped the symbolic run is hit concretely:
+        # the code is spinning
+        out['outcome'] = 'hang'
+        out['detail'] = 'bound hit in concrete run: %r' % (ex,)
     except core.PathAbort:
         out['outcome'] = 'cut'
     except core.Unsupported as ex:
@@ -294,7 +304,9 @@ def _explore_once(mod, modname, inst, seed, W, res, t0):
         ctx = core.explore(body, W=W, seed=seed, deadline=deadline,
                            max_decisions=inst['max_decisions'],
                            on_path=on_path, max_paths=inst['max_paths'],
-                           solver_timeout_ms=inst['solver_timeout_ms'])
+                           solver_timeout_ms=inst['solver_timeout_ms'],
+                           explode_limit=inst.get('explode_limit', 3000),
+                           n_samples=inst.get('n_samples', 96))
     finally:
         shadow_log = sorted(set(sh.log))
         sh.restore()
@@ -309,7 +321,8 @@ def _explore_once(mod, modname, inst, seed, W, res, t0):
     res['complete'] = bool(ctx.complete)
     if state['overflow']:
         return 'overflow'
-    if not ctx.complete and \
+    res['degraded'] = bool(ctx.degraded)
+    if not ctx.finished and \
             len(res['violations']) < inst.get('max_violations', 25):
         res['inconclusive'].append(
             'exploration incomplete (budget %ss / max paths)'
@@ -369,6 +382,20 @@ def _pool_run(args):
     return run_instance(*args)
 
 
+def _pool_run_indexed(arg):
+    k, job = arg
+    return k, run_instance(*job)
+
+
+def _worker_init():
+    """workers must not outlive the runner (PR_SET_PDEATHSIG = SIGKILL)"""
+    try:
+        import ctypes
+        ctypes.CDLL('libc.so.6', use_errno=True).prctl(1, signal.SIGKILL)
+    except Exception:
+        pass
+
+
 def main(argv=None):
     argv = argv or sys.argv[1:]
     pid = argv[0]
@@ -393,9 +420,21 @@ def main(argv=None):
         # longest first
         order = sorted(range(len(jobs)),
                        key=lambda k: -jobs[k][1]['budget_s'])
-        with mpctx.Pool(nproc, maxtasksperchild=8) as pool:
-            out = pool.map(_pool_run, [jobs[k] for k in order], chunksize=1)
-        tmp = dict(zip(order, out))
+        with mpctx.Pool(nproc, maxtasksperchild=8,
+                        initializer=_worker_init) as pool:
+            tmp = {}
+            for k, r in pool.imap_unordered(
+                    _pool_run_indexed, [(k, jobs[k]) for k in order],
+                    chunksize=1):
+                tmp[k] = r
+                if os.environ.get('SYMX_PROGRESS'):
+                    sys.stderr.write('[done %d/%d] %s paths=%d wall=%.1fs '
+                                     'viol=%d inconcl=%d\n' % (
+                                         len(tmp), len(jobs), r['name'],
+                                         r['paths'], r['wall_s'],
+                                         len(r['violations']),
+                                         len(r['inconclusive'])))
+                    sys.stderr.flush()
         results = [tmp[k] for k in range(len(jobs))]
     return report(pid, tier, seed, mod, results, t0)
 
@@ -448,7 +487,7 @@ def report(pid, tier, seed, mod, results, t0):
     # replay new violations in a fresh process before reporting
     lines = []
     confirmed = []
-    os.makedirs(os.path.join(ROOT, 'replays'), exist_ok=True)
+    os.makedirs(os.path.join(OUT, 'replays'), exist_ok=True)
     seen = set()
     for v in new_viol:
         if v['key'] in seen:
@@ -520,7 +559,7 @@ def write_replay(pid, modname, v):
     dig = hashlib.sha1(json.dumps(
         [body['fn'], body['params'], body['assignment']],
         sort_keys=True).encode()).hexdigest()[:12]
-    rp = os.path.join(ROOT, 'replays', '%s-%s.json' % (pid, dig))
+    rp = os.path.join(OUT, 'replays', '%s-%s.json' % (pid, dig))
     with open(rp, 'w') as f:
         json.dump(body, f, indent=1, sort_keys=True)
     return rp
@@ -566,6 +605,7 @@ def write_evidence(pid, tier, seed, mod, results, confirmed, known_hit,
             'witness_replayed': r['witness_ok'],
             'assertions_reached': r['assertions_reached'],
             'concretised_paths': r['concretised_paths'],
+            'degraded_to_sampling': r.get('degraded', False),
             'violations': [v['key'] for v in r['violations']],
         } for r in main_r],
         'sentinel_selftests': [{
@@ -595,8 +635,8 @@ def write_evidence(pid, tier, seed, mod, results, confirmed, known_hit,
         'wall_s': round(wall, 3),
         'violations': len(confirmed),
     }
-    os.makedirs(os.path.join(ROOT, 'evidence'), exist_ok=True)
-    p = os.path.join(ROOT, 'evidence', '%s.json' % pid)
+    os.makedirs(os.path.join(OUT, 'evidence'), exist_ok=True)
+    p = os.path.join(OUT, 'evidence', '%s.json' % pid)
     with open(p + '.tmp', 'w') as f:
         json.dump(ev, f, indent=1, sort_keys=True)
     os.replace(p + '.tmp', p)
